@@ -351,6 +351,9 @@ func c20Analyse(res *core.Result, w *workload.SubWorld, s *sched.Sched, pre []in
 			}
 		case "SendEnd":
 			delete(inSend, sid)
+		case "ValueChanged":
+			res.Violate("C20", "delivered_message_changed_later", "the message a subscriber was sent changed after the delivery (it keeps the value, as a queueing subscriber does): subscriber "+strings.TrimPrefix(e.Obj, "ValueChanged|"), nil)
+			return
 		}
 	}
 	// mutation publishes report through the response
